@@ -231,8 +231,8 @@ def mutate_record(rng, rec):
             if m:
                 m["message"] = rng.choice([m["message"].split(":")[-1], "zz:" + m["message"].split(":")[-1], m["message"] + ":"])
                 m["ns_map"] = [[None, "urn:dflt"]] + [x for x in m["ns_map"] if x[0] is not None]
-    except (IndexError, KeyError):
-        pass
+    except (IndexError, KeyError, ValueError, AttributeError, TypeError):
+        pass  # the record was already too damaged for this mutation
     return r
 
 
